@@ -138,7 +138,10 @@ func (t *validatingTarget) Write(p []byte) (n int, err error) {
 		t.writtenPayload += uint64(n)
 	}
 
-	err = t.checkQuotaLimits(t.cachedHeader, t.writtenPayload)
+	// the next target's failure must not be lost when the quota check passes
+	if quotaErr := t.checkQuotaLimits(t.cachedHeader, t.writtenPayload); quotaErr != nil {
+		err = quotaErr
+	}
 
 	return
 }
